@@ -1,6 +1,7 @@
 """C16 -- method calls get exactly one correctly correlated reply."""
 import someip.header as H
 import someip.service as S
+from contracts.common import check_frame
 from contracts import spec_header as SH
 from contracts import spec_service as SV
 
@@ -67,8 +68,10 @@ def ob_message_received(vc):
     msg = SH.gen_message(vc, "msg")
     addr = vc.opaque("addr", "addr")
     multicast = vc.bool("multicast")
+    heap = vc.snapshot(svc=svc)
     o = vc.outcome(vc.body(S.SimpleService.message_received), svc, msg, addr, multicast)
     vc.check(o.kind == "ret", "message_received.never_raises")
+    check_frame(vc, heap, "message_received", ())
     registered = msg.method_id == mid
     exp = expected_replies(svc, registered, msg, addr, multicast, behaviour, response)
     vc.check_eq(len(sent), len(exp), "message_received.number_of_replies")
